@@ -29,6 +29,7 @@ THEOREMS = [
     "O2P.Gate.or_inference_sound",
     "O2P.Gate.or_test_spec",
     "O2P.Gate.or_inference_leaves_sound",
+    "O2P.Gate.post_flat_or_sound",
 ]
 
 
